@@ -12,6 +12,11 @@ from ..oracles import calendar as cal
 PROPERTY = "C01"
 LEVEL = "exploration"
 EXHAUSTIVE = {"quick": True, "thorough": True}
+MANIFEST = {
+    "level_text": "Exhaustive enumeration of the finite domain: every civil day of years -4712..6000 in three month spellings plus the rejected day numbers of every month, against an independent integer calendar. For this finite domain the property is decided completely for the tree it ran on.",
+    "level_note": "Trusts the integer-calendar oracle (self-tested against datetime.date and literal anchors on every run). Days 5-14 Oct 1582 are not asserted either way.",
+    "technique": "exhaustive generated-input enumeration vs integer reference calendar (differential oracle)",
+}
 RULE = ("Enumeration, no sampling inside a year: one case per civil year in -4712..6000 "
         "(both tiers enumerate all 10713 years, about 10 s on 16 cores; the thorough "
         "tier additionally builds every day with a fractional day and with h/m/s). For each year every existing civil "
